@@ -190,17 +190,10 @@ func (x *Explorer) shouldInline(fn *ssa.Function, binds []Val) bool {
 		return true
 	}
 	// plain helper functions of the module's other hand-written packages (a date helper moved into
-	// x/ecocredit/basket, a pricing package): seen through, except the named API the format / validator
-	// rules reason about as terms (Format…, Validate…, Parse…, Get…From…, ExponentToPrefix, Is…)
-	if fn.Signature.Recv() == nil && fn.Parent() == nil && !strings.Contains(pp, "/types/v") && !strings.Contains(pp, "/types/v2") {
-		n := fn.Name()
-		opaque := false
-		for _, pre := range []string{"Format", "Validate", "validate", "Parse", "Get", "ExponentTo", "Is", "New", "Register", "Must"} {
-			if strings.HasPrefix(n, pre) {
-				opaque = true
-			}
-		}
-		if !opaque {
+	// x/ecocredit/basket, a packet builder moved into an internal package): seen through, except the
+	// named API functions the format / validator / query rules reason about as terms (termFuncs)
+	if fn.Signature.Recv() == nil && fn.Parent() == nil && !strings.Contains(pp, "/types/v") {
+		if !termFuncs[shortPkg(pp)+"."+originName(fn)] {
 			return true
 		}
 	}
@@ -227,6 +220,32 @@ func (x *Explorer) shouldInline(fn *ssa.Function, binds []Val) bool {
 		}
 	}
 	return false
+}
+
+// termFuncs: hand-written API functions that stay uninterpreted terms in the explorer because E4/E5/E7
+// rules reason about them by identity (format ⊆ validator language, separator disjointness, timestamp
+// and pagination converters). Everything else that is hand-written in a module package is inlined.
+
+
+var termFuncs = map[string]bool{
+	"x/ecocredit/v3/base.FormatClassID": true, "x/ecocredit/v3/base.FormatProjectID": true, "x/ecocredit/v3/base.FormatBatchDenom": true,
+	"x/ecocredit/v3/base.ValidateClassID": true, "x/ecocredit/v3/base.ValidateProjectID": true, "x/ecocredit/v3/base.ValidateBatchDenom": true,
+	"x/ecocredit/v3/base.ValidateCreditTypeAbbreviation": true, "x/ecocredit/v3/base.ValidateJurisdiction": true,
+	"x/ecocredit/v3/base.GetClassIDFromBatchDenom": true, "x/ecocredit/v3/base.GetClassIDFromProjectID": true, "x/ecocredit/v3/base.GetProjectIDFromBatchDenom": true,
+	"x/ecocredit/v3/base.ExponentToPrefix": true,
+	"x/ecocredit/v3/basket.FormatBasketDenom": true, "x/ecocredit/v3/basket.ValidateBasketDenom": true, "x/ecocredit/v3/basket.ValidateBasketName": true,
+	"x/data/v3.ParseIRI": true, "x/data/v3.validateHash": true,
+	"types/v2.ProtobufToGogoTimestamp": true, "types/v2.GogoToProtobufTimestamp": true,
+	"types/v2/ormutil.PageResToCosmosTypes": true, "types/v2/ormutil.PageReqToOrmPaginate": true,
+	"types/v2/eth.IsValidAddress": true, "types/v2/eth.IsValidTxHash": true,
+}
+
+// originName: the declared name of a function, also for an instance of a generic.
+func originName(fn *ssa.Function) string {
+	if o := fn.Origin(); o != nil {
+		return o.Name()
+	}
+	return fn.Name()
 }
 
 func structHasField(t types.Type, name string) bool {
